@@ -134,6 +134,17 @@ def run_shard(shard, tier, res):
                         continue
                     discs = [[x, 10.0 + 0.3 * i, a] for i, (x, a) in enumerate(zip(pos, ar))]
                     check_total(dict(discs=discs), res)
+        # distinct modules at exactly the same place (concentric, nested and equal discs: e.g. every module at the die centre)
+        pts = [(5.0, 10.0), (6.2, 10.3)]
+        for nd in (2, 3, 4):
+            for where in itertools.product((0, 1), repeat=nd):
+                if len(set(where)) == nd:
+                    continue                # (no two at the same place: covered above)
+                for ar in itertools.product(areas, repeat=nd):
+                    k += 1
+                    if k % 8 != shard['total']:
+                        continue
+                    check_total(dict(discs=[[pts[w][0], pts[w][1], a] for w, a in zip(where, ar)]), res)
         return
     J = 16 if tier == 'quick' else 200
     r1 = RADII_T[shard['i']]
